@@ -2,21 +2,30 @@
 Text half here; the OpenMetrics half is harness/c14om.py (merged in when present)."""
 import random
 import signal
+import sys
 
 from . import c03, reggen
 from .sx import d_str
 
 RULE = ('documents: text expositions of generated registries (valid), all single and sampled multiple token-level mutations '
-        '(insert, delete, duplicate, swap lines, truncate at every offset, character edits from the special alphabet), '
+        '(insert, delete, duplicate, swap lines, truncate at every offset, character edits from the special alphabet; sample-name '
+        'suffix cut / exchanged / added, TYPE word exchanged, a number respelt, a name token quoted / unquoted), every family '
+        'type x every sample-name suffix, every spelling of the special numbers as le / quantile / value, '
         'unstructured strings over the special characters (exhaustive to length 4 quick / 5 thorough) and keyword fragments; '
-        'same streams for the OpenMetrics parser; non-trivial = a mutated or unstructured input (not a pristine exposition); '
-        'distinct by input text')
+        'same streams for the OpenMetrics parser; every 40 cases a parse-history case (harness/c14hist.py): documents of the '
+        'run parsed again - twice in a fresh interpreter state (forked from a server that never parsed, other hash seed), in '
+        'both orders of a pair / triple (a document with an edit of itself, with another document, under the other parser) and '
+        'in the warmed checker process - all outcomes of one document identical and equal to the model; '
+        'non-trivial = a mutated or unstructured input (not a pristine exposition); distinct by input text')
 TRUSTED = ['CPython int()/float() raise only ValueError on str input (NUM oracle; OverflowError of int/1000 is modelled)',
            're Unicode classes \\w \\s \\d answered by CPython (OpenMetrics native-histogram patterns)',
            'io.StringIO line splitting']
-ASSUMPTIONS = ['termination is proved on the model (fuel is sufficient); the harness additionally runs every input under a watchdog']
+ASSUMPTIONS = ['termination is proved on the model (fuel is sufficient); the harness additionally runs every input under a watchdog',
+               'a fresh interpreter state is the state right after importing the parser modules (reached by fork from a server '
+               'process that never parses, harness/c14hist.py)']
 TIME_BUDGET = {'quick': 150, 'thorough': 1500}
 ORACLE = dict(c03.ORACLE)
+from . import c14hist
 try:
     from . import c14om
     ORACLE.update(c14om.ORACLE)
@@ -108,8 +117,120 @@ def mutations(rng, doc, k):
             yield d2[:j] + rng.choice(SPECIAL + EXTRA) + d2[j + 1:]
 
 
+HIST_EVERY = 40          # one history case after this many ordinary cases
+
+
+class Pool:
+    """reservoir of the documents parsed so far in this run (structured ones and short strings apart)"""
+    CAP = 3000
+
+    def __init__(self, rng):
+        self.rng = rng
+        self.docs = {'struct': [], 'short': []}
+        self.seen = {'struct': 0, 'short': 0}
+
+    def offer(self, fmt, text):
+        cls = 'struct' if ('# TYPE' in text or text.count('\n') >= 2) else 'short'
+        self.seen[cls] += 1
+        l = self.docs[cls]
+        if len(l) < self.CAP:
+            l.append((fmt, text))
+        else:
+            j = self.rng.randrange(self.seen[cls])
+            if j < self.CAP:
+                l[j] = (fmt, text)
+
+    def draw(self, fmt=None):
+        cls = 'struct' if (self.docs['struct'] and self.rng.random() < 0.9) or not self.docs['short'] else 'short'
+        l = self.docs[cls]
+        if not l:
+            return ('om', '# TYPE a counter\na_total 1\n# EOF\n')
+        for _ in range(8):
+            it = self.rng.choice(l)
+            if fmt is None or it[0] == fmt:
+                return it
+        return it
+
+
+def hist_case(items, why):
+    items = [list(it) for it in items]
+    return dict(fmt='hist', items=items, origin='hist:' + why, text=' || '.join(t for _f, t in items)[:400])
+
+
+def hist_seed_cases():
+    """parse-history cases that do not depend on the run: every family type x every sample-name suffix, alone
+    (parsed twice in one fresh state) and paired, in both orders, with the same type's plain document"""
+    grid = [d for d in c14om.grid_docs() if d not in set(c14om.spelling_docs())] if c14om is not None else []
+    fmts = ('om', 'text') if c14om is not None else ('text',)
+    for fmt in fmts:
+        for d in grid:
+            if '{' not in d:
+                yield hist_case([(fmt, d)], 'grid')
+    for fmt in fmts:
+        for d in grid:
+            if '{' in d:
+                continue
+            typ = d.split('\n')[0].split(' ')[3]
+            plain = {'counter': 'a_total 1', 'summary': 'a_count 1\na_sum 1', 'histogram': 'a_bucket{le="+Inf"} 1',
+                     'gaugehistogram': 'a_bucket{le="+Inf"} 1', 'info': 'a_info{a="b"} 1', 'stateset': 'a{a="b"} 1'}.get(typ, 'a 1')
+            yield hist_case([(fmt, '# TYPE a %s\n%s\n# EOF\n' % (typ, plain)), (fmt, d)], 'grid-pair')
+    if c14om is not None:
+        canon = {}
+        for kind, _sp, d in c14om.spelling_table():
+            if kind not in ('histogram2', 'summary', 'gauge'):
+                continue
+            first = canon.setdefault(kind, d)        # the canonical '+Inf' spelling comes first
+            for fmt in fmts:
+                if d is first:
+                    yield hist_case([(fmt, d)], 'spelling')
+                else:
+                    yield hist_case([(fmt, first), (fmt, d)], 'spelling-pair')
+    for d in ['a 1\n', 'a{b="c"} 1 2\n', '# HELP a b\n# TYPE a counter\na 1\n', '# TYPE a summary\na{quantile="0.5"} 1\n',
+              '# TYPE a histogram\na_bucket{le="1"} 1\na_bucket{le="+Inf"} 1\na_count 1\na_sum 1\n# EOF\n',
+              '# TYPE a stateset\na{a="x"} 1\n# EOF\n', '# TYPE a gauge\na 1 1\na 2 2\n# EOF\n',
+              '# TYPE a histogram\na {count:1,sum:1,schema:0,zero_threshold:0,zero_count:0,positive_spans:[0:1],positive_deltas:[1]}\n# EOF\n',
+              '# TYPE a counter\na_total 1 # {a="b"} 1 1\n# EOF\n', '# TYPE a_seconds gauge\n# UNIT a_seconds seconds\na_seconds 1\n# EOF\n',
+              '{"a.b"} 1\n# EOF\n', '# TYPE "a.b" gauge\n{"a.b",c="d"} 1\n# EOF\n']:
+        for fmt in fmts:
+            yield hist_case([(fmt, d)], 'seed')
+        if len(fmts) == 2:
+            yield hist_case([('om', d), ('text', d)], 'seed-cross')
+
+
+def hist_cases(ctx, pool):
+    """endless: the fixed slice first, then documents of the run parsed again - alone, next to an edit of themselves
+    (same family names, types and label sets), next to other documents, and by the other parser"""
+    yield from hist_seed_cases()
+    rng = ctx.rng
+    other = {'om': 'text', 'text': 'om'}
+    while True:
+        r = rng.random()
+        fmt, d = pool.draw()
+        if c14om is None:
+            yield hist_case([(fmt, d)], 'again')
+            continue
+        if r < 0.3:
+            yield hist_case([(fmt, d)], 'again')
+        elif r < 0.6:
+            r2 = rng.random()
+            if r2 < 0.75:
+                edit = c14om.name_edits if r2 < 0.3 else c14om.respell_edits if r2 < 0.55 else c14om.quote_edits
+                ed = edit(rng, d, 1)
+                d2 = ed[0][0] if ed else c14om.omgen.mutate_once(rng, d)[0]
+            else:
+                d2 = c14om.omgen.mutate_once(rng, d)[0]
+            yield hist_case([(fmt, d), (fmt, d2)], 'edit-pair')
+        elif r < 0.75:
+            yield hist_case([(fmt, d), pool.draw(fmt)], 'pair')
+        elif r < 0.87:
+            yield hist_case([(fmt, d), (other[fmt], d)], 'cross')
+        else:
+            yield hist_case([(fmt, d), pool.draw(), pool.draw(fmt)], 'triple')
+
+
 def cases(ctx):
-    """text-format stream, then the OpenMetrics stream (harness/c14om.py), interleaved so that a time cut keeps both"""
+    """text-format stream and the OpenMetrics stream (harness/c14om.py), interleaved so that a time cut keeps both;
+    every HIST_EVERY cases a parse-history case (harness/c14hist.py) over documents the run has already parsed"""
     import itertools
     streams = [text_cases(ctx)]
     if c14om is not None:
@@ -117,10 +238,19 @@ def cases(ctx):
             for c in c14om.cases(ctx):
                 yield dict(c, fmt='om', text=c['doc'], origin=c.get('why', 'om'))
         streams.append(om())
+    pool = Pool(ctx.rng)
+    hist = hist_cases(ctx, pool)
+    n = 0
     for group in itertools.zip_longest(*streams):
         for c in group:
             if c is not None:
+                pool.offer(c['fmt'], c['text'])
                 yield c
+                n += 1
+                if n % HIST_EVERY == 0:
+                    yield next(hist)
+    for _ in range(ctx.n(400, 6000)):          # and again at the very end of the run
+        yield next(hist)
 
 
 def text_cases(ctx):
@@ -136,9 +266,16 @@ def text_cases(ctx):
         frontier = [a + c for a in frontier for c in SPECIAL]
         for s in frontier:
             yield dict(fmt='text', text=s, origin='exhaustive')
+    if c14om is not None:
+        for d in c14om.grid_docs():
+            yield dict(fmt='text', text=d, origin='grid')
     docs = valid_docs(rng, ctx.n(60, 600))
     for d in docs:
         yield dict(fmt='text', text=d, origin='valid')
+        if c14om is not None:      # sample names with the suffix cut / exchanged, TYPE words exchanged
+            for m, _kind in (c14om.name_edits(rng, d, ctx.n(6, 20)) + c14om.respell_edits(rng, d, ctx.n(5, 16))
+                             + c14om.quote_edits(rng, d, ctx.n(3, 10))):
+                yield dict(fmt='text', text=m, origin='mutation')
         # truncate at every offset (sampled when long)
         offs = range(len(d)) if len(d) < 160 else sorted(rng.sample(range(len(d)), 80))
         for i in offs:
@@ -155,18 +292,53 @@ def impl(case):
         case['text'].encode('utf-8')
     except UnicodeEncodeError:
         pass
+    if case['fmt'] == 'hist':
+        return c14hist.observe(case['items'])
     if case['fmt'] == 'text':
-        return run_text_impl(case['text'])
-    return c14om.impl(case)
+        obs = run_text_impl(case['text'])
+    else:
+        obs = c14om.impl(case)
+    _FIRST.setdefault(_key(case['fmt'], case['text']), c14hist.digest(_as_hist(case['fmt'], obs)))
+    return obs
+
+
+_FIRST = {}      # outcome of the first parse of a document in this process (digest), for "again later in the run"
+
+
+def _key(fmt, text):
+    return hash((fmt, text))
+
+
+def _as_hist(fmt, obs):
+    """the observation of an ordinary case in the vocabulary of c14hist.parse_one"""
+    if fmt == 'om' and obs[0] == 'err' and obs[1] != 'ValueError':
+        return ['err', 'Timeout' if obs[1] == 'TIMEOUT' else 'Other:' + obs[1]]
+    return obs
+
+
+def _pure(m, fmt, text):
+    if fmt == 'text':
+        return c03.jsonable(c03.canon_model_parsed(m.call('text_parse', False, True, True, text)))
+    return _as_hist('om', c14om.obs_model(m, text))
 
 
 def model(m, case):
+    if case['fmt'] == 'hist':
+        memo = {}
+        pure = []
+        for fmt, text in case['items']:
+            if (fmt, text) not in memo:
+                memo[(fmt, text)] = _pure(m, fmt, text)
+            pure.append(memo[(fmt, text)])
+        return c14hist.expected(case['items'], pure)
     if case['fmt'] == 'text':
         return c03.jsonable(c03.canon_model_parsed(m.call('text_parse', False, True, True, case['text'])))
     return c14om.model(m, case)
 
 
 def direct(case, obs):
+    if case['fmt'] == 'hist':
+        return c14hist.direct(case['items'], obs, [_FIRST.get(_key(f, t)) for f, t in case['items']])
     if case['fmt'] == 'om':
         return c14om.direct(case, obs)
     if obs[0] == 'ok' or obs[1] == 'ValueError':
@@ -176,17 +348,60 @@ def direct(case, obs):
     return '%s parser raised %s (not ValueError) on %r' % (case['fmt'], obs[1][6:], case['text'][:200])
 
 
+def replay(ctx, rep, case):
+    """a replayed case meets a process that has parsed the fixed slice with both parsers (a history case compares
+    fresh interpreter states with this one)"""
+    from . import engine
+    if case.get('fmt') == 'hist' and c14om is not None:
+        for d in c14om.grid_docs():
+            for fmt in ('om', 'text'):
+                c14hist.parse_one(fmt, d)
+    engine.process(sys.modules[__name__], ctx, rep, case)
+
+
 def nontrivial(case, obs):
     return case['origin'] != 'valid'
 
 
 def classify(case, obs):
+    if case['fmt'] == 'hist':
+        keys = [case['origin'], 'hist:items:%d' % len(case['items'])]
+        keys += ['hist:parser:' + f for f in sorted({f for f, _t in case['items']})]
+        keys += ['hist:outcome:' + (o[0] if o[0] == 'ok' else o[1]) for o in obs['warm']]
+        if any(_key(f, t) in _FIRST for f, t in case['items']):
+            keys.append('hist:parsed-earlier-in-this-run')
+        return keys
     if case['fmt'] == 'om':
         return ['om:' + k for k in c14om.classify(case, obs)]
     return [case['fmt'] + ':' + case['origin'], case['fmt'] + ':' + (obs[0] if obs[0] == 'ok' else obs[1])]
 
 
+def _shrink_text(t):
+    lines = t.split('\n')
+    if len(lines) > 1:
+        for i in range(len(lines)):
+            yield '\n'.join(lines[:i] + lines[i + 1:])
+    n = len(t)
+    step = max(1, n // 8)
+    while step >= 1:
+        for i in range(0, n, step):
+            yield t[:i] + t[i + step:]
+        if step == 1 or n > 120:
+            break
+        step //= 2
+
+
 def shrinks(case):
+    if case['fmt'] == 'hist':
+        items = case['items']
+        if len(items) > 1:
+            for i in range(len(items)):
+                yield hist_case(items[:i] + items[i + 1:], 'shrink')
+        for i, (f, t) in enumerate(items):
+            for t2 in _shrink_text(t):
+                # an item that is a copy of another one stays a copy
+                yield hist_case([[g, t2] if (g, u) == (f, t) else [g, u] for g, u in items], 'shrink')
+        return
     if case['fmt'] == 'om':
         for c in c14om.shrinks(case):
             yield dict(c, fmt='om', text=c['doc'], origin='shrink')
@@ -203,6 +418,14 @@ def shrinks(case):
 
 
 def neighbours(case):
+    if case['fmt'] == 'hist':
+        for f, t in case['items']:
+            yield hist_case([[f, t]], 'nb')
+            for c in neighbours(dict(fmt=f, text=t, doc=t, origin='nb')):
+                if c['fmt'] != 'hist':
+                    yield hist_case([[f, c['text']]], 'nb')
+        return
+    yield hist_case([[case['fmt'], case['text']]], 'nb')
     if case['fmt'] == 'om':
         for c in c14om.neighbours(case):
             yield dict(c, fmt='om', text=c['doc'], origin='nb')
